@@ -8,7 +8,7 @@
    nothing is left that could be paid or slashed a second time. *)
 From Coq Require Import ZArith List Bool.
 From Alliance Require Import Num KMap Types Monad Model Step Spec Hoare.
-From Alliance.Proofs Require Import SortedInv Queues Payout IndexSync SlashQueue UndelCleanup.
+From Alliance.Proofs Require Import SortedInv Queues Payout IndexSync SlashQueue UndelCleanup IndexSync2.
 Import ListNotations.
 Open Scope Z_scope.
 
@@ -74,3 +74,15 @@ Example C02_nonvacuous :
   map (fun x => (snd (fst x), bal (snd x) 100 1, Z.of_nat (length (undelq (snd x))))) (run_trace init_state h)
   = [(0, 0, 0); (0, 0, 0); (0, 0, 0); (0, 0, 0); (0, 1000, 0); (0, 1000, 0); (0, 500, 0); (0, 500, 1); (0, 500, 1); (0, 500, 1); (0, 500, 1); (0, 700, 0)].
 Proof. vm_compute. reflexivity. Qed.
+
+(* the converse: in every reachable state every key of the per-validator index stands for an entry that
+   is really pending (same validator, denom, delegator, completion time) — nothing that is not pending
+   can be slashed or looked up — and no bucket of the queue is empty *)
+Theorem C02_no_index_key_without_entry : forall h v ct dn dl, let s := run init_state h in
+  kget (undelidx s) [v; ct; dn; dl] = Some tt ->
+  exists l e, kget (undelq s) [ct; dl] = Some l /\ In e l /\ u_val e = v /\ u_denom e = dn /\ u_del e = dl.
+Proof. exact no_index_key_without_entry. Qed.
+Print Assumptions C02_no_index_key_without_entry.
+Theorem C02_no_empty_bucket : forall h k l, kget (undelq (run init_state h)) k = Some l -> l <> [].
+Proof. exact no_empty_bucket. Qed.
+Print Assumptions C02_no_empty_bucket.
